@@ -446,8 +446,16 @@ class Component(CaselessDict):
                     comps.append(component)
                 else:
                     stack[-1].add_component(component)
-                if vals == 'VTIMEZONE' and 'TZID' in component:
-                    tzp.cache_timezone_component(component)
+                if vals == 'VTIMEZONE' and 'TZID' in component \
+                        and isinstance(component, Timezone):
+                    try:
+                        tzp.cache_timezone_component(component)
+                    except ValueError:
+                        raise
+                    except Exception as e:
+                        raise ValueError(
+                            f'Invalid VTIMEZONE {component.get("TZID")!r}: {e}'
+                        ) from e
             # we are adding properties to the current top of the stack
             else:
                 factory = types_factory.for_property(name)
